@@ -74,6 +74,13 @@ func init() {
 							}
 							cells = append(cells, cp(conf, "launch", launch, "beh", beh, "pat", pat))
 						}
+						if launch == "reattach" && (beh == "prompt" || beh == "cleanup:100ms") {
+							// the plugin has been attached for a while before Kill (the
+							// reattached runner notices the exit by polling the pid)
+							for _, dwell := range []string{"6500ms", "60s"} {
+								cells = append(cells, cp(conf, "launch", launch, "beh", beh, "pat", "single", "dwell", dwell))
+							}
+						}
 						if launch == "reattach" && beh != "never-connected" {
 							// the launching host and the reattached one both shut the plugin down
 							for _, off := range []string{"0", "50ms", "300ms"} {
@@ -116,7 +123,7 @@ func init() {
 				}
 			}
 			for _, c := range cells {
-				out = append(out, sp("C04", fmt.Sprintf("cell/%s/%s/%s/%s%s", confLabel(c), c["launch"], c["beh"], c["pat"], c["off"]), seed, c))
+				out = append(out, sp("C04", fmt.Sprintf("cell/%s/%s/%s/%s%s%s", confLabel(c), c["launch"], c["beh"], c["pat"], c["off"], dwellLabel(c)), seed, c))
 			}
 			// Kill (or CleanupClients) issued while another goroutine's Start is
 			// still waiting for the handshake of a plugin that will fail it
@@ -392,6 +399,9 @@ func runC04(r *h.Run) {
 		return r.Do("Kill["+p.name+"]"+tag, B+60*time.Second, func() (any, error) { p.cl.Kill(); return nil, nil })
 	}
 	inj0 := w.InjectedTotal()
+	if d := r.Spec.P("dwell", ""); d != "" {
+		time.Sleep(parseDur(d))
+	}
 	t0 := w.Now()
 	for _, p := range ps {
 		p.reqAt = t0
@@ -583,4 +593,11 @@ func runC04(r *h.Run) {
 			}
 		}
 	}
+}
+
+func dwellLabel(c map[string]string) string {
+	if c["dwell"] == "" {
+		return ""
+	}
+	return "/dwell=" + c["dwell"]
 }
